@@ -52,7 +52,7 @@ func (propC01) ID() string    { return "C01" }
 func (propC01) Race() bool    { return false }
 func (propC01) Level() string { return "exploration" }
 func (propC01) Rule() string {
-	return "one run = a seeded history of 5-40 engine operations (register, failing register, re-register, render, render-to-writer, parse+render, compile+load on another engine, debug toggles, GC of pools) over 1-3 engines, executed under a seeded sync.Pool policy (lifo/fifo/random, put-drop 0/12/50 %, gc faults); every render is compared with a pristine replica (fresh engine, never-recycling pools, empty process-wide caches) and after every operation every cached template tree must be unchanged and unreleased. distinct = distinct event-log hash (all seam decisions + observations); non-trivial = at least one pooled object was actually recycled before the last render"
+	return "one run = a seeded history of 5-40 engine operations (register, failing register, re-register, render, render-to-writer, parse+render, compile+load on another engine, debug toggles, cache off/on toggles, globals / functions / filters (re)registered in mid-history, GC of pools) over 1-3 engines, executed under a seeded sync.Pool policy (lifo/fifo/random, put-drop 0/12/50 %, gc faults); every render is compared with a pristine replica (fresh engine, never-recycling pools, empty process-wide caches) and after every operation every cached template tree must be unchanged and unreleased. distinct = distinct event-log hash (all seam decisions + observations); non-trivial = at least one pooled object was actually recycled before the last render"
 }
 func (propC01) Assumptions() []string {
 	return []string{
@@ -97,6 +97,14 @@ func (propC01) Gen(seed uint64, ex map[string]bool) interface{} {
 				// a directory aliases spellings (./x, x) that are different names for the replica's in-memory loader
 				sc.FS2 = false
 			}
+		}
+	}
+	usesLate := false
+	for _, pr := range sc.Progs {
+		// callbacks that the application (re)registers in mid-history: some templates call them
+		if t := &pr.Templates[r.N(len(pr.Templates))]; r.P(30) && !strings.Contains(t.Src(), "{% extends") {
+			t.Segs = append(t.Segs, pick(r, []string{"{{ late_fn() }}", "{{ 'x'|late_f }}", "{{ late_fn() }}{{ late_fn()|late_f }}"}))
+			usesLate = true
 		}
 	}
 	nops := r.Range(5, maxOps)
@@ -164,10 +172,20 @@ func (propC01) Gen(seed uint64, ex map[string]bool) interface{} {
 			sc.Ops = append(sc.Ops, c01Op{K: "flood", E: e, Mode: pick(r, []int{40, 130, 130, 260, 520})})
 		case c < 25:
 			// a global (re)defined in mid-history: later renders see the new value, earlier templates included
-			sc.Ops = append(sc.Ops, c01Op{K: "setglobal", E: e, Name: pick(r, []string{"g1", "gn", "late"}), Src: fmt.Sprintf("late-%d", i)})
+			sc.Ops = append(sc.Ops, c01Op{K: "setglobal", E: e, Name: pick(r, []string{"g1", "gn", "late", "fn:late_fn", "flt:late_f"}), Src: fmt.Sprintf("late-%d", i)})
+		case c == 27 && !sc.AutoReload && r.P(50):
+			// the cache switched off and on again (directly or through development mode) with nothing in between:
+			// the engine's templates and configuration are what they were
+			sc.Ops = append(sc.Ops, c01Op{K: "cachetoggle", E: e, Mode: r.N(2)})
 		default:
 			sc.Ops = append(sc.Ops, c01Op{K: "renderheld", E: e, P: p, CV: r.N(3)})
 		}
+	}
+	if usesLate && r.P(70) {
+		// … and the application does (re)register them somewhere in the second half of the history
+		k := len(sc.Ops)/2 + r.N(len(sc.Ops)/2+1)
+		op := c01Op{K: "setglobal", E: r.N(sc.Engines), Name: pick(r, []string{"fn:late_fn", "flt:late_f"}), Src: "swapped"}
+		sc.Ops = append(sc.Ops[:k], append([]c01Op{op}, sc.Ops[k:]...)...)
 	}
 	return sc
 }
@@ -264,12 +282,24 @@ func (ce *c01Engine) pristine() (*twig.Engine, *spyHub) {
 		e.SetDebug(true)
 	}
 	for _, g := range ce.late {
-		e.AddGlobal(g[0], g[1])
+		applyLate(e, g[0], g[1])
 	}
 	for _, n := range names {
 		e.RegisterString(n, m[n])
 	}
 	return e, hub
+}
+
+// applyLate (re)defines a global, or with a fn:/flt: prefix a function / filter, in mid-history.
+func applyLate(e *twig.Engine, name, val string) {
+	switch {
+	case strings.HasPrefix(name, "fn:"):
+		e.AddFunction(name[3:], func(args ...interface{}) (interface{}, error) { return "<" + val + ">", nil })
+	case strings.HasPrefix(name, "flt:"):
+		e.AddFilter(name[4:], func(v interface{}, args ...interface{}) (interface{}, error) { return toStr(v) + "~" + val, nil })
+	default:
+		e.AddGlobal(name, val)
+	}
 }
 
 func withPristine(w *simrt.World, f func()) {
@@ -475,8 +505,18 @@ func (propC01) Run(scI interface{}) (o *Outcome) {
 			}
 			o.Probes["flood_ops"]++
 		case "setglobal":
-			ce.e.AddGlobal(op.Name, op.Src)
+			applyLate(ce.e, op.Name, op.Src)
 			ce.late = append(ce.late, [2]string{op.Name, op.Src})
+		case "cachetoggle":
+			if op.Mode == 0 {
+				ce.e.SetCache(false)
+				ce.e.SetCache(true)
+			} else {
+				ce.e.SetDevelopmentMode(true)
+				ce.e.SetDevelopmentMode(false)
+				ce.debug = false
+			}
+			o.Probes["cache_toggles"]++
 		case "gc":
 			w.GC(op.Mode)
 		case "debug":
